@@ -22,6 +22,16 @@ Definition builder_accepts (c : scfg) : bool :=
   (initial_sequence c <=? MAX_INITIAL_SEQUENCE) &&
   negb (paris6_zero c).
 
+(* Builder::build with a source address: its family must be the family of the target (F22, repaired: before, such a
+   configuration was accepted and Channel::connect reached unreachable!() once tracing had started) *)
+Definition source_family_ok (c : scfg) (src : option addr) : bool :=
+  match src with
+  | None => true
+  | Some s => Bool.eqb (is_v6 s) (is_v6 (target_addr c))
+  end.
+Definition builder_accepts_src (c : scfg) (src : option addr) : bool :=
+  builder_accepts c && source_family_ok c src.
+
 (* every field lies in the range of its Rust type *)
 Definition u8 (x : Z) : Prop := 0 <= x < 256.
 Definition u16 (x : Z) : Prop := 0 <= x < 65536.
